@@ -542,7 +542,11 @@ func (g G) exprOfType(t cty.Type, env exprEnv, depth int) string {
 		return g.callText(env, depth-1)
 	case 3: // template
 		if t == cty.String || t == cty.DynamicPseudoType {
-			switch g.Weighted(50, 20, 15, 15) {
+			switch g.Weighted(50, 20, 15, 15, 8, 6) {
+			case 4: // indented heredoc whose lines begin with an interpolation / a directive
+				return "<<-EOT\n    ${" + g.refText(env) + "} tail\n      é ${" + g.refText(env) + "}\n    EOT"
+			case 5:
+				return "<<-EOT\n    %{if " + g.exprOfType(cty.Bool, env, depth-1) + "}\n    yes\n    %{endif}\n    EOT"
 			case 0:
 				return `"pre-${` + g.exprOfType(cty.String, env, depth-1) + `}-é"`
 			case 1:
